@@ -7,7 +7,8 @@
    sequence of small integers (one per byte).  ms = markers found in a decoded header block (a sequence).
 
    stimuli (logged when they are delivered to the proxy; a delivery starts with "in"):
-     [k |-> "cfg", fc]                         fc: flow-control windows are small in this scenario
+     [k |-> "cfg", fc, sep]                    fc: flow-control windows are small in this scenario;  sep: the upstream speaks
+                                               HTTP/1 only, so every stream gets a server connection of its own (t = its number)
      [k |-> "in", side]                        side "c" | "s": the environment acts (client / server bytes arrive)
      [k |-> "c_hdr", s] [k |-> "c_data", s, d] [k |-> "c_trl", s] [k |-> "c_end", s] [k |-> "c_rst", s]   client, stream s
      [k |-> "r_hdr", t] [k |-> "r_data", t, d] [k |-> "r_trl", t] [k |-> "r_end", t] [k |-> "r_rst", t]   server, stream t
@@ -43,7 +44,8 @@ MonInit == [bad |-> <<>>, wit |-> {},
             fl |-> <<>>,                     \* flow number -> client stream
             se |-> {}, sr |-> {},            \* server streams on which the server has SENT end / reset (possibly not yet delivered)
             limit |-> NoLimit, known |-> FALSE,
-            sdead |-> FALSE, dead |-> FALSE, fc |-> FALSE]
+            sdead |-> FALSE, dead |-> FALSE, fc |-> FALSE,
+            sep |-> FALSE]                   \* every stream gets an upstream connection of its own (HTTP/1-only server)
 
 One(ms) == IF Len(ms) = 1 /\ ms[1] \in Idx THEN ms[1] ELSE 0
 Closed(m, j) == m.sq[j].rst \/ m.rr[j].rst \/ (m.sq[j].ended /\ m.rr[j].ended)
@@ -65,6 +67,8 @@ Terminated(m, i) == m.cr[i].rst \/ m.cr[i].ended \/ m.cs[i].rst
 AtEnd(m) ==
   IF m.dead THEN <<>>
   ELSE IF Stalled(m) # <<>> THEN Stalled(m)
+  \* no capacity to wait for: a released request that never reached a server is lost
+  ELSE IF m.sep /\ m.waiting # <<>> THEN <<"C05.request_lost", "no_upstream_connection">>
   \* the server connection is gone: every stream that was waiting for it, or on it, must have been answered or reset
   ELSE IF m.sdead /\ \E k \in 1..Len(m.waiting) : ~Terminated(m, m.waiting[k])
        THEN <<"C05.queued_stream_lost", "server_closed">>
@@ -72,7 +76,7 @@ AtEnd(m) ==
        THEN <<"C05.reset_lost", "server_closed">>
   ELSE IF \E i \in Idx : m.dst[i] # 0 /\ m.cs[i].ended /\ ~m.cs[i].rst /\ ~m.sdead /\ ~m.rr[m.dst[i]].rst
                          /\ ~(m.sq[m.dst[i]].ended /\ m.sq[m.dst[i]].body = m.cs[i].body /\ m.sq[m.dst[i]].trl = m.cs[i].trl)
-       THEN <<"C05.request_lost">>
+       THEN <<"C05.request_lost", "incomplete">>
   ELSE IF \E j \in Idx : m.src[j] # 0 /\ m.rr[j].ended /\ ~m.rr[j].rst /\ ~m.cs[m.src[j]].rst /\ ~m.sdead
                          /\ ~(m.cr[m.src[j]].hdr = 1 /\ m.cr[m.src[j]].body = m.rr[j].body /\ m.cr[m.src[j]].trl = m.rr[j].trl
                               /\ (m.cs[m.src[j]].ended => m.cr[m.src[j]].ended))
@@ -100,7 +104,7 @@ Clause(m, ev) ==
          ELSE IF m.dst[i] # 0 THEN <<"C05.stream_duplicated">>
          ELSE IF m.src[ev.t] # 0 THEN <<"C05.server_stream_reused">>
          ELSE IF m.known /\ OpenSrv(m) >= m.limit THEN <<"C05.opened_beyond_limit">>
-         ELSE IF InSeq(m.waiting, i) /\ Head(m.waiting) # i THEN <<"C05.queue_order">>
+         ELSE IF ~m.sep /\ InSeq(m.waiting, i) /\ Head(m.waiting) # i THEN <<"C05.queue_order">>
          ELSE <<>>
     [] ev.k = "s_data" ->
          IF ~(ev.t \in Idx) \/ m.src[ev.t] = 0 THEN <<"C05.request_body_foreign">>
@@ -179,7 +183,8 @@ MonStep(m, ev) ==
   LET b == Clause(m, ev)
       m1 == [m EXCEPT !.bad = b] IN
   IF b # <<>> THEN m1 ELSE
-  CASE ev.k = "cfg" -> [m1 EXCEPT !.fc = ev.fc, !.wit = @ \cup W(ev.fc, "flow_control")]
+  CASE ev.k = "cfg" -> [m1 EXCEPT !.fc = ev.fc, !.sep = Get(ev, "sep", FALSE),
+                                  !.wit = @ \cup W(ev.fc, "flow_control") \cup W(Get(ev, "sep", FALSE), "h1_upstream")]
     [] ev.k = "c_hdr" -> [m1 EXCEPT !.cs[ev.s].hdr = 1]
     [] ev.k = "c_data" -> [m1 EXCEPT !.cs[ev.s].body = @ \o ev.d]
     [] ev.k = "c_trl" -> [m1 EXCEPT !.cs[ev.s].trl = TRUE]
